@@ -216,19 +216,30 @@ def run_cascade_results(case):
     vs = []
     n = 0
     forms = []
-    for ch in chains():
-        forms.append(ch)  # list form
-        forms.append({f"st{i}": [x] for i, x in enumerate(ch)})  # dict form, single constituent
-        if len(ch) >= 2:
-            forms.append({f"st{i}": sorted(LATTICE[x]) for i, x in enumerate(ch)})  # dict form, expanded to compartments
-    forms += ["main", 0]
-    for cas in forms:
+    nested = {tuple(ch) for ch in chains()}
+    # every sequence of <= 3 stages over the lattice: a nested one must be accepted; whatever the library accepts as valid must not increase
+    for k in (1, 2, 3):
+        for ch in itertools.permutations(list(LATTICE), k):
+            ch = list(ch)
+            isn = tuple(ch) in nested
+            forms.append((ch, isn))  # list form
+            forms.append(({f"st{i}": [x] for i, x in enumerate(ch)}, isn))  # dict form, single constituent
+            if len(ch) >= 2:
+                forms.append(({f"st{i}": sorted(LATTICE[x]) for i, x in enumerate(ch)}, isn))  # dict form, expanded to compartments
+    forms += [("main", True), (0, True)]
+    n_refused = 0
+    for cas, isn in forms:
         for pops in ("pa", "pb", ["pa", "pb"], "all"):
             for year in (None, [S0 + 1.0, S0 + 2.5], S0 + 0.75):
                 try:
                     vals, t = at.get_cascade_vals(r, cas, pops=pops, year=year)
                 except Exception as e:
-                    vs.append(V("valid-cascade-rejected", f"cascade {cas} pops={pops} year={year}: {type(e).__name__}: {str(e)[:150]}", None))
+                    if isn:
+                        vs.append(V("valid-cascade-rejected", f"cascade {cas} pops={pops} year={year}: {type(e).__name__}: {str(e)[:150]}", None))
+                    elif not isinstance(e, at.cascade.InvalidCascade):
+                        raise
+                    else:
+                        n_refused += 1
                     continue
                 n += 1
                 arr = [np.asarray(v, dtype=float) for v in vals.values()]
@@ -240,7 +251,7 @@ def run_cascade_results(case):
                 break
         if len(vs) > 3:
             break
-    return dict(states=n, transitions=0, nontrivial=True, violations=vs[:4], counters=dict(cascade_value_calls=n))
+    return dict(states=n, transitions=0, nontrivial=True, violations=vs[:4], counters=dict(cascade_value_calls=n, cascades_refused_as_not_nested=n_refused))
 
 
 def run_cascade_data(case):
